@@ -101,7 +101,7 @@ class Prop(common.PropertyCheck):
         for _ in range(self.budget(3000, 30000)):
             d = rng.choice([47, 124, 12, 33, 92, 36, 97])
             n = rng.randrange(0, 24)
-            seg = [rng.choice([d, d, d, 97, 98, 99, 32, 36, 0]) for _ in range(n)]
+            seg = [rng.choice([d, d, d, 97, 98, 99, 32, 36, 0, 0xc2, 0xb0]) for _ in range(n)]
             yield {'k': 'seg', 'd': d, 'supp': rng.random() < 0.5, 'seg': seg, 'auto': rng.random() < 0.3}
         # dictionaries
         printable = [c for c in range(33, 127)]
@@ -123,7 +123,10 @@ class Prop(common.PropertyCheck):
         for _ in range(self.budget(150, 2000)):
             d = rng.choice([47, 124, 33, 92, 12])
             nul = rng.random() < 0.3      # NUL-padded values as some instruments write them
+            utf = rng.random() < 0.3      # values whose high bytes happen to form valid UTF-8 sequences (ISO-8859-1 text all the same)
             def tok():
+                if utf and rng.random() < 0.4:
+                    return rng.choice(['25\xc2\xb0C', '\xc3\x89tat', 'x\xc2\xb5m', '\xe2\x82\xac5'])
                 alphabet = [d, d, 97, 98, 99, 32, 49] + ([0] if nul else [])
                 first = rng.choice([c for c in alphabet if c != d])
                 body = [rng.choice(alphabet) for _b in range(rng.randrange(0, 6))]
@@ -150,7 +153,9 @@ class Prop(common.PropertyCheck):
                 'analysis': analysis, 'analysis_leading': rng.random() < 0.5,
                 'raw_analysis': (chr(d) * 2 + 'k' + chr(d)) if (bad_analysis and analysis) else None,
                 'analysis_placement': rng.choice(['header', 'text']) if version != 'FCS2.0' else 'header',
-                'order': rng.choice(['TDA', 'TSDA', 'TDAS', 'STDA', 'SDTA'])}}
+                'order': rng.choice(['TDA', 'TSDA', 'TDAS', 'STDA', 'SDTA']),
+                # padding after the last delimiter of the primary TEXT; with TSDA and a leading delimiter the next byte in the file is the delimiter
+                'text_trailer': rng.choice(['', '', '   ', ' ', '\x00\x00']), 'pad_data': rng.choice([0, 0, 3])}}
 
     # ---- implementation side ------------------------------------------------
     def read_seg(self, segb, d, supp, auto=False):
